@@ -1,7 +1,7 @@
 ENGINES = [
     {'name': 'E1-enum', 'path': 'mc/engine_enum.py', 'serves_properties': ['C01', 'C02', 'C04', 'C05', 'C06', 'C09', 'C12', 'C19'],
      'kind_free_text': 'sharded exhaustive enumeration of a finite input/configuration space of the real code against a reference model'},
-    {'name': 'E2-bfs', 'path': 'mc/engine_bfs.py', 'serves_properties': ['C03', 'C04', 'C05'],
+    {'name': 'E2-bfs', 'path': 'mc/engine_bfs.py', 'serves_properties': ['C03', 'C04', 'C05', 'C15'],
      'kind_free_text': 'explicit-state breadth-first search over live implementation objects (state = replayable operation history, canonicalised from the complete vars() of the objects), level-parallel'},
 ]
 NOTES = 'All checks are bounded exhaustive explorations of the real mido code (imported from the /repo working tree) against independent reference models; see DESIGN.md.'
@@ -56,3 +56,9 @@ CHECKS['C09'] = dict(
     technique='exhaustive enumeration of the finite meta attribute domains and boundary payload lengths of the implementation against a reference meta-event codec',
     text='The complete finite domains (65536 sequence numbers, 256 channel/port values, 30 keys, 256 denominator exponents x {0,1,255}^3, SMPTE limits) and payload lengths at every variable-length-quantity boundary are constructed, encoded (compared byte for byte with a reference codec typed from the SMF specification), decoded with MetaMessage.from_bytes, read from a one-track file and built through assignment; out-of-domain values must raise ValueError/TypeError.',
     note='set_tempo swept with stride 4096 plus limits; text restricted to latin1; known finding: smpte hours >= 32 (see known_findings.json).')
+
+CHECKS['C15'] = dict(
+    engine='E2-bfs', category='model_checking', design_ref='DESIGN.md 5/C15',
+    technique='breadth-first search over operation histories on a pool of related live message objects against a reference pool of plain dicts (state key includes aliasing)',
+    text='From each of 37 base objects (every Message type, every MetaMessage type, UnknownMetaMessage) all histories up to depth 3 (4 thorough) of copy, copy with valid/invalid overrides, freeze, thaw, valid/invalid assignment, deletion, hashing, equality and dictionary lookup on a pool of up to 3 objects are executed; after every step each object must equal its own reference dict and have the mapped class, frozen objects must reject mutation, equal frozen objects hash equal and hit as keys, None maps to None.',
+    note='One representative value per attribute; depth-bounded over a deduplicated state graph whose key records object and __dict__ identity.')
